@@ -254,6 +254,11 @@ class Adapter:
         # the alias octets of the talker alias link controls (one constructor argument, default b"", carried in 16-bit limbs)
         if fam in ("FullLC96", "FullLC77") and "talker_alias_data_1" in vals and params["talker_alias_data"].default is not None:
             out.append("talker_alias_data_1")
+        # likewise the manufacturer data / broadcast parameters of two CSBK opcodes (one argument each, carried in several fields)
+        if fam == "CSBK" and "raw_data_1" in vals:
+            out.append("raw_data_1")
+        if fam == "CSBK" and "params1" in vals:
+            out.append("params1")
         return out
 
     def build(self, name, vals, plain=False, omit=()):
